@@ -234,7 +234,7 @@ def tmpl_programs(res, tier, rnd):
     cls = {}
     for t in ts:
         cls.setdefault(tmpl_class(t), []).append(t)
-    n = 160 if tier == "thorough" else 24
+    n = 96 if tier == "thorough" else 24
     pick = []
     share = {"reconvergent": (2 * n) // 3, "nested+shared": n // 8, "nested": n // 12, "shared": n // 12}
     for c, k in share.items():
